@@ -65,6 +65,18 @@ def step (op impl : String) : String × Verdict :=
     match max.toNat?, parseChunks cs with
     | some max, some chunks => stepFrames max chunks impl
     | _, _ => ("bad-op", .unknown)
+  | ["readloop", max, cs] =>
+    -- the real readLoop over scripted reads: by `frames_of_chunks` EVERY chunking of a well-formed stream (also the
+    -- re-chunking done by bufio and readData) delivers exactly the complete frames, and nothing waits for more traffic
+    match max.toNat?, parseChunks cs with
+    | some max, some chunks =>
+      if impl.startsWith "panic" || impl == "hang" then ("delivered", .fail) else
+      match decodeData max chunks.flatten with
+      | .ok (ms, _) =>
+        let m := showFrames (ms.map id) ++ "|late=0|end=idle"
+        if impl == m then (m, .hold) else (m ++ " [property: every fully received frame is delivered, in order, once]", .fail)
+      | .error _ => (impl, .unknown)
+    | _, _ => ("bad-op", .unknown)
   | ["conv", h] =>
     match parseBytes h with
     | some b => stepConv b impl
